@@ -256,5 +256,6 @@ def check(tier):
     ]
     for name, m in mut:
         ck.add_mutant(name, m, "step", "harness.C05", "step_job", dict(cases=[(2, 2, 3, 0), (2, 2, 3, 1), (2, 2, 3, 2)]))
+    ck.validate = ['ssa']
     ck.run()
     return ck.finish(replay=REPLAY)
